@@ -32,3 +32,36 @@ Proof.
   assert (In r (map Z.of_nat (seq 0 32))) as I2 by (apply in_map_iff; exists (Z.to_nat r); split; [lia | apply in_seq; lia]).
   apply Z.eqb_eq, A, I2.
 Qed.
+
+(** completeness: every well-formed ERROR-CODE attribute is accepted with the RFC value, and the three outcomes are told apart exactly *)
+Theorem find_error_accepts c buf o l b2 b3 :
+  find c buf A_ERROR_CODE = Ok (Some (o, l)) -> 4 <= l -> rd buf (o + 2) = Some b2 -> rd buf (o + 3) = Some b3 ->
+  3 <= Z.land b2 7 <= 6 -> b3 <= 99 ->
+  find_error c buf = Ok (FOk (Z.land b2 7 * 100 + b3)).
+Proof.
+  intros F L R2 R3 C N. unfold find_error. rewrite F. cbn [bind].
+  assert (E : (l <? 4) = false) by lia. rewrite E. rewrite R2, R3. cbn [lift bind].
+  assert (E2 : (Z.land b2 7 <? 3) || (Z.land b2 7 >? 6) || (b3 >? 99) = false) by lia. rewrite E2. reflexivity.
+Qed.
+
+Theorem find_error_not_found_iff c buf :
+  find_error c buf = Ok FNotFound <-> find c buf A_ERROR_CODE = Ok None.
+Proof.
+  unfold find_error. split.
+  - intros H. destruct (find c buf A_ERROR_CODE) as [[[o l]|]|] eqn:F; cbn [bind] in H; try discriminate; [|reflexivity].
+    destruct (l <? 4); [discriminate|].
+    destruct (rd buf (o + 2)) as [b2|]; cbn [lift bind] in H; [|discriminate].
+    destruct (rd buf (o + 3)) as [b3|]; cbn [lift bind] in H; [|discriminate].
+    destruct ((Z.land b2 7 <? 3) || (Z.land b2 7 >? 6) || (b3 >? 99)); discriminate.
+  - intros F. rewrite F. reflexivity.
+Qed.
+
+Theorem find_error_rejects c buf o l b2 b3 :
+  find c buf A_ERROR_CODE = Ok (Some (o, l)) -> rd buf (o + 2) = Some b2 -> rd buf (o + 3) = Some b3 ->
+  (l < 4 \/ Z.land b2 7 < 3 \/ 6 < Z.land b2 7 \/ 99 < b3) ->
+  find_error c buf = Ok FInvalid.
+Proof.
+  intros F R2 R3 C. unfold find_error. rewrite F. cbn [bind].
+  destruct (l <? 4) eqn:E; [reflexivity|]. rewrite R2, R3. cbn [lift bind].
+  assert (E2 : (Z.land b2 7 <? 3) || (Z.land b2 7 >? 6) || (b3 >? 99) = true) by lia. rewrite E2. reflexivity.
+Qed.
